@@ -112,7 +112,7 @@ Points(L, f, m) ==
 (* ------------------------------------------------------------------ the contract (what C08 demands)
    out \in {"frame","more","error","panic","loop"}; consumed = bytes drained; alloc = bytes allocated;
    tailsame = the answer does not depend on memory beyond the n bytes supplied *)
-AllocBound(n) == 262144 + 16 * n
+AllocBound(n) == 1048576 + 16 * n
 
 NeverPanics(out)          == out \notin {"panic", "loop"}
 \* a frame needs its bytes: none can be produced from fewer bytes than it announces, nor from an invalid length
